@@ -239,7 +239,10 @@ theorem msok_runThunk (t : Thunk) (v : World) : MsOk v (runThunk t v) := by
   | discard c => exact MsOk.of_eq rfl
   | mgrLost => exact msok_connectionLost v
   | stoppedD => exact msok_tInput _ _ _
-  | waiter id ok => exact MsOk.of_eq rfl
+  | waiter id ok =>
+    obtain ⟨ws, rg, e⟩ := resolveWaiter_same id ok v
+    show MsOk v (resolveWaiter id ok v)
+    rw [e]; exact MsOk.of_eq rfl
 
 theorem msok_runThunks (l : List Thunk) (v : World) : MsOk v (runThunks l v) := by
   induction l generalizing v with
